@@ -6,9 +6,13 @@ import TapkeeVerif.Proofs.LandmarksNegEig
 # C11 — landmark methods embed landmarks exactly and triangulate the rest consistently
 
 Subjects: the executable model `Model/Landmarks.lean` (run at `Rat` by `model_c11`, tied to the code by
-`checks/c11.py`).  `K` is any field of characteristic zero (in particular every ordered field: ℚ, ℝ); `N`, the number of
+`checks/c11.py`).  `K` is any ordered field (ℚ, ℝ, …); `N`, the number of
 landmarks `nl`, `d`, the ambient dimension `m` are arbitrary naturals; the eigensolver, `sqrt` and the shuffle are
-universally quantified parameters constrained only by their contracts (`IsEig`, `IsFactored`, `IsSqrt`, permutation).
+universally quantified parameters constrained only by their contracts (`IsEig`, `IsFactored`, `IsSqrtClamped`,
+permutation); machine epsilon is any `eps ≥ 0`.  The model is the tree after the fixes F-LANDMARK-DIM (c5e886d),
+F-LMDS-RANKDEF (745a460), F-SQRT-NEG (c99fb7c), F-ISOMAP-ASYM (2c74a55); the statements that those defects refuted
+(`lmds_exact_recovery_refuted`, `validation_does_not_bound_dimension`) are replaced by the full theorems and their
+witnesses live on as corpus cases.
 -/
 set_option linter.unusedSectionVars false
 namespace TapkeeVerif.Landmarks
@@ -50,54 +54,46 @@ example : ratioValid 8 (1 / 2) := by unfold ratioValid; norm_num
 
 /-! ## Landmark MDS -/
 section lmds
-variable {K : Type} [Field K] [CharZero K] [DecidableEq K] {N nl d m : Nat}
+variable {K : Type} [Field K] [LinearOrder K] [IsStrictOrderedRing K] {N nl d m : Nat}
 
-theorem lmdsEmbed_ok_iff (δ : Mat N N K) (lm : Fin nl → Fin N) (V : Mat nl d K) (lam s : Vec d K) (Y : Mat N d K) :
-    lmdsEmbed δ lm V lam s = .ok Y ↔
-      d ≤ nl ∧ (∀ i, lam i ≠ 0) ∧ Y = triangulateRows δ lm (lmdsMu δ lm) (post V s) (divCols (post V s) lam) := by
-  unfold lmdsEmbed triangulate rightColsInBounds anyZero
+theorem lmdsEmbed_ok_iff (eps : K) (δ : Mat N N K) (lm : Fin nl → Fin N) (V : Mat nl d K) (lam s : Vec d K)
+    (Y : Mat N d K) :
+    lmdsEmbed eps δ lm V lam s = .ok Y ↔ d ≤ nl ∧ Y = triangulate eps δ lm (lmdsMu δ lm) (post V s) lam := by
+  unfold lmdsEmbed rightColsInBounds
   by_cases hd : d ≤ nl
-  · by_cases hz : ∃ i, lam i = 0
-    · have : (List.finRange d).any (fun i => decide (lam i = 0)) = true := by
-        simpa [List.any_eq_true] using hz
-      simp only [hd, decide_true, Bool.not_true, Bool.false_eq_true, if_false, this, if_true]
-      constructor
-      · intro h; cases h
-      · rintro ⟨_, hne, _⟩; obtain ⟨i, hi⟩ := hz; exact absurd hi (hne i)
-    · have hz' : ∀ i, lam i ≠ 0 := fun i hi => hz ⟨i, hi⟩
-      have : (List.finRange d).any (fun i => decide (lam i = 0)) = false := by
-        simpa [List.any_eq_false] using hz'
-      simp only [hd, decide_true, Bool.not_true, Bool.false_eq_true, if_false, this]
-      constructor
-      · intro h; injection h with h; exact ⟨trivial, hz', h.symm⟩
-      · rintro ⟨_, _, rfl⟩; rfl
-  · simp only [hd, decide_false, Bool.not_false, if_true]
+  · simp only [hd, decide_true, Bool.not_true, Bool.false_eq_true, if_false, true_and]
     constructor
-    · intro h; cases h
-    · rintro ⟨h, _⟩; exact h.elim
+    · intro h; injection h with h; exact h.symm
+    · rintro rfl; rfl
+  · simp only [hd, decide_false, Bool.not_false, if_true, false_and, iff_false]
+    intro h; cases h
 
 /-- **Landmark MDS embeds the landmarks exactly as MDS embeds that subset**: the matrix handed to the eigensolver is
     the MDS matrix `mdsPre` (Model/Mds.lean, C05) of the callback restricted to the landmarks, and row `lm a` of the
-    result is row `a` of MDS's post-processing `post V s` of the same solver answer. -/
-theorem lmds_landmarks_eq_mds_of_subset (δ : Mat N N K) (lm : Fin nl → Fin N) (hinj : Function.Injective lm)
-    (V : Mat nl d K) (lam s : Vec d K) (Y : Mat N d K) (h : lmdsEmbed δ lm V lam s = .ok Y) :
+    result is row `a` of MDS's post-processing `post V s` of the same solver answer (`s = sqrt(max(λ,0))` in both). -/
+theorem lmds_landmarks_eq_mds_of_subset (eps : K) (δ : Mat N N K) (lm : Fin nl → Fin N) (hinj : Function.Injective lm)
+    (V : Mat nl d K) (lam s : Vec d K) (Y : Mat N d K) (h : lmdsEmbed eps δ lm V lam s = .ok Y) :
     lmdsB δ lm = mdsPre (subCallback δ lm) ∧ mdsEmbed V s = .ok (post V s) ∧ ∀ a, Y (lm a) = post V s a := by
-  obtain ⟨hd, _, rfl⟩ := (lmdsEmbed_ok_iff δ lm V lam s Y).mp h
+  obtain ⟨hd, rfl⟩ := (lmdsEmbed_ok_iff eps δ lm V lam s Y).mp h
   refine ⟨rfl, ?_, ?_⟩
   · simp [mdsEmbed, rightColsInBounds, hd]
   · intro a
-    unfold triangulateRows
+    unfold triangulate triangulateRows
     rw [landmarkPos_of_injective lm hinj a]
 
 /-- **Triangulation is consistent with the landmark embedding**: for every eigen-system `(V, lam)` of the landmark
-    matrix with nonzero eigenvalues (in particular whenever `B = Y Yᵀ` with `Y = V diag √lam`), the expression the
-    second loop of `triangulate` evaluates — `-½ (V diag(s/lam))ᵀ (δ² − μ)` with `μ` the column means taken BEFORE
-    centring — returns, on the distances of a landmark, exactly that landmark's row `V_a diag s`. -/
-theorem triangulate_fixes_landmarks (δ : Mat N N K) (lm : Fin nl → Fin N) (hnl : 0 < nl)
+    matrix (in particular whenever `B = Y Yᵀ` with `Y = V diag √lam`), the expression the second loop of `triangulate`
+    evaluates — `-½ Wᵀ (δ² − μ)` with `W` the pseudo-inverse columns (`V diag(s/lam)` where `lam i` exceeds the
+    tolerance, zero otherwise) and `μ` the column means taken BEFORE centring — returns, on the distances of a landmark,
+    exactly that landmark's row `V_a diag s`, provided every selected eigenvalue is either above the tolerance or
+    non-positive (where `s i = sqrt(max(lam i, 0)) = 0`). -/
+theorem triangulate_fixes_landmarks (eps : K) (heps : 0 ≤ eps) (δ : Mat N N K) (lm : Fin nl → Fin N) (hnl : 0 < nl)
     (hsym : ∀ a b, δ (lm a) (lm b) = δ (lm b) (lm a))
-    (V : Mat nl d K) (lam s : Vec d K) (heig : IsEig (lmdsB δ lm) V lam) (hl : ∀ i, lam i ≠ 0) (a : Fin nl) :
-    triangulateRow δ lm (lmdsMu δ lm) (divCols (post V s) lam) (lm a) = post V s a := by
+    (V : Mat nl d K) (lam s : Vec d K) (heig : IsEig (lmdsB δ lm) V lam) (hs : IsSqrtClamped s lam)
+    (hdich : ∀ i, lam i ≤ 0 ∨ eigTol nl eps lam < lam i) (a : Fin nl) :
+    triangulateRow δ lm (lmdsMu δ lm) (pinvCols (eigTol nl eps lam) (post V s) lam) (lm a) = post V s a := by
   have hn : (nl : K) ≠ 0 := by exact_mod_cast (Nat.pos_iff_ne_zero.mp hnl)
+  have htol := eigTol_nonneg nl eps heps lam
   funext i
   have hD : ∀ b, δ (lm a) (lm b) * δ (lm a) (lm b) = landmarkSqDist δ lm a b := by
     intro b
@@ -107,44 +103,70 @@ theorem triangulate_fixes_landmarks (δ : Mat N N K) (lm : Fin nl → Fin N) (hn
     · simp [hab, hsym a b]
   unfold triangulateRow
   rw [sumFin_eq_sum]
-  simp only [hD]
-  rw [triangulation_of_landmark_column δ lm hn V lam s heig hl a i]
-  rfl
+  simp only [hD, pinvCols_post]
+  rw [triangulation_of_landmark_column δ lm hn V lam heig a i _ (coef_zero_or _ htol lam s i)]
+  unfold coef post
+  by_cases ht : eigTol nl eps lam < lam i
+  · have hl : lam i ≠ 0 := ne_of_gt (lt_of_le_of_lt htol ht)
+    simp only [ht, if_true]
+    field_simp
+  · have hle : lam i ≤ 0 := (hdich i).resolve_right ht
+    have hs0 : s i = 0 := by
+      have := hs i
+      rw [clamp0_of_nonpos hle] at this
+      exact mul_self_eq_zero.mp this
+    simp [ht, hs0]
 
-example : IsEig (lmdsB (fun i j : Fin 2 => if i = j then (0 : ℚ) else 2) id) (fun a _ => if a = 0 then 1 else -1 : Mat 2 1 ℚ)
-    (fun _ => 2) := by
-  intro a i
-  fin_cases a <;> simp [sumFin, List.finRange, lmdsB, scale, negHalf, centerMatrix, centerWith, colMeans, grandMean,
-    landmarkSqDist, sqDistMatrix, subCallback] <;> norm_num
-
-/-- **Exact recovery** (`_partial`: all `d` selected eigenvalues nonzero, i.e. the data have affine dimension exactly
-    `d`).  Euclidean input (`IsEuclidean`), the solver's answer is an eigen-system of the landmark matrix that carries
-    all of it (`IsFactored`: `rank ≤ d`), `sqrt` is exact, and every sample lies in the affine span of the landmarks
-    (`hspan`).  Then Landmark MDS returns an embedding and ALL pairwise squared distances — landmark/landmark,
+/-- **Exact recovery** (full statement: affine dimension `≤ d`).  Euclidean input (`IsEuclidean`); the solver's answer
+    is an eigen-system of the landmark matrix that carries all of it (`IsFactored`: `rank ≤ d`; eigenvalues may vanish);
+    `s = sqrt(max(λ, 0))` exactly; every selected eigenvalue is either `0` or above the pseudo-inverse tolerance
+    `n_l · ε · max|λ|` (the exact-arithmetic dichotomy; `ε ≥ 0` arbitrary); every sample lies in the affine span of the
+    landmarks (`hspan`).  Then Landmark MDS returns an embedding and ALL pairwise squared distances — landmark/landmark,
     landmark/other, other/other — equal the input's.  No bound on `N`, `nl`, `d`, `m`; `lm` need not be injective.
-
-    Full statement (FALSE of the code as it stands, see `lmds_exact_recovery_refuted`): the same with `hl` dropped
-    (affine dimension `≤ d`, some selected eigenvalues zero). -/
-theorem lmds_exact_recovery_partial (δ : Mat N N K) (X : Mat N m K) (lm : Fin nl → Fin N) (hnl : 0 < nl) (hd : d ≤ nl)
-    (hE : IsEuclidean δ X) (V : Mat nl d K) (lam s : Vec d K)
-    (heig : IsEig (lmdsB δ lm) V lam) (hfac : IsFactored (lmdsB δ lm) V lam) (hs : IsSqrt s lam)
-    (hl : ∀ i, lam i ≠ 0)
+    (Before fix 745a460 this was false for affine dimension `< d`: `triangulate` divided by the zero eigenvalue.) -/
+theorem lmds_exact_recovery (eps : K) (heps : 0 ≤ eps) (δ : Mat N N K) (X : Mat N m K) (lm : Fin nl → Fin N)
+    (hnl : 0 < nl) (hd : d ≤ nl) (hE : IsEuclidean δ X) (V : Mat nl d K) (lam s : Vec d K)
+    (heig : IsEig (lmdsB δ lm) V lam) (hfac : IsFactored (lmdsB δ lm) V lam) (hs : IsSqrtClamped s lam)
+    (hdich : ∀ i, lam i = 0 ∨ eigTol nl eps lam < lam i)
     (hspan : ∀ x, ∃ w : Fin nl → K, ∀ k, X x k - centroid X lm k = ∑ a, w a * Zc X lm a k) :
-    ∃ Y, lmdsEmbed δ lm V lam s = .ok Y ∧ ∀ x y, sqDistRows Y x y = δ x y * δ x y := by
+    ∃ Y, lmdsEmbed eps δ lm V lam s = .ok Y ∧ ∀ x y, sqDistRows Y x y = δ x y * δ x y := by
   have hn : (nl : K) ≠ 0 := by exact_mod_cast (Nat.pos_iff_ne_zero.mp hnl)
-  refine ⟨_, (lmdsEmbed_ok_iff δ lm V lam s _).mpr ⟨hd, hl, rfl⟩, ?_⟩
+  have htol := eigTol_nonneg nl eps heps lam
+  set tol := eigTol nl eps lam with htoldef
+  have hlam0 : ∀ i, 0 ≤ lam i := by
+    intro i
+    rcases hdich i with h | h
+    · rw [h]
+    · exact le_of_lt (lt_of_le_of_lt htol h)
+  have hs' : IsSqrt s lam := by
+    intro i; rw [hs i, clamp0_of_nonneg (hlam0 i)]
+  have hcs : ∀ i, coef tol lam s i * lam i = s i := by
+    intro i
+    unfold coef
+    by_cases ht : tol < lam i
+    · have hl : lam i ≠ 0 := ne_of_gt (lt_of_le_of_lt htol ht)
+      simp only [ht, if_true]; field_simp
+    · have hl0 : lam i = 0 := (hdich i).resolve_right ht
+      have hs0 : s i = 0 := by
+        have := hs' i; rw [hl0] at this; exact mul_self_eq_zero.mp this
+      simp [ht, hs0]
+  refine ⟨_, (lmdsEmbed_ok_iff eps δ lm V lam s _).mpr ⟨hd, rfl⟩, ?_⟩
   -- every row is the linear map `Mmap` applied to `x − centroid`
-  have hrow : ∀ x i, triangulateRows δ lm (lmdsMu δ lm) (post V s) (divCols (post V s) lam) x i
-      = ∑ k, Mmap V lam s X lm i k * (X x k - centroid X lm k) := by
+  have hrow : ∀ x i, triangulate eps δ lm (lmdsMu δ lm) (post V s) lam x i
+      = ∑ k, Mmap V (coef tol lam s) X lm i k * (X x k - centroid X lm k) := by
     intro x i
-    unfold triangulateRows
+    unfold triangulate triangulateRows
     cases hpos : landmarkPos? lm x with
-    | none => exact triangulateRow_eq δ X lm hn hE V lam s heig hl x i
+    | none =>
+      exact triangulateRow_eq δ X lm hn hE V lam (coef tol lam s) heig (coef_zero_or tol htol lam s) _
+        (pinvCols_post tol V lam s) x i
     | some a =>
       have hax := landmarkPos_some lm x a hpos
-      have := landmark_row_eq δ X lm hn hE V lam s heig hl a i
+      have := landmark_row_eq δ X lm hn hE V lam (coef tol lam s) heig a i
       simp only [post]
-      rw [← this]
+      have h2 : V a i * s i = ∑ k, Mmap V (coef tol lam s) X lm i k * Zc X lm a k := by
+        rw [this, ← hcs i]; ring
+      rw [h2]
       apply Finset.sum_congr rfl; intro k _
       unfold Zc; rw [hax]
   intro x y
@@ -156,60 +178,40 @@ theorem lmds_exact_recovery_partial (δ : Mat N N K) (X : Mat N m K) (lm : Fin n
     have : X x k - X y k = (X x k - centroid X lm k) - (X y k - centroid X lm k) := by ring
     rw [this, hwx, hwy, ← Finset.sum_sub_distrib]
     apply Finset.sum_congr rfl; intro a _; ring
-  have hY : ∀ i, triangulateRows δ lm (lmdsMu δ lm) (post V s) (divCols (post V s) lam) x i
-      - triangulateRows δ lm (lmdsMu δ lm) (post V s) (divCols (post V s) lam) y i
-      = ∑ k, Mmap V lam s X lm i k * ∑ a, (wx a - wy a) * Zc X lm a k := by
+  have hY : ∀ i, triangulate eps δ lm (lmdsMu δ lm) (post V s) lam x i
+      - triangulate eps δ lm (lmdsMu δ lm) (post V s) lam y i
+      = ∑ k, Mmap V (coef tol lam s) X lm i k * ∑ a, (wx a - wy a) * Zc X lm a k := by
     intro i
     rw [hrow, hrow, ← Finset.sum_sub_distrib]
     apply Finset.sum_congr rfl; intro k _
     rw [← hdiff]; ring
   simp only [hY, hdiff]
-  exact Mmap_isometry δ X lm hn hE V lam s heig hfac hs hl (fun a => wx a - wy a)
+  exact Mmap_isometry δ X lm hn hE V lam s (coef tol lam s) heig hfac hs' hcs (fun a => wx a - wy a)
 
-/-- non-vacuity of `lmds_exact_recovery_partial`: five collinear samples `1, 1, −1, −1, 3`, the first four are the
-    landmarks, `d = 1`, the solver's exact answer `V = (½, ½, −½, −½)ᵀ`, `λ = 4`, `√λ = 2` -/
-example : ∃ Y, lmdsEmbed Witness.δ Witness.lm Witness.V1 Witness.lam1 Witness.s1 = .ok Y ∧
+/-- non-vacuity, affine dimension `= d`: five collinear samples `1, 1, −1, −1, 3`, the first four are the landmarks,
+    `d = 1`, the solver's exact answer `V = (½, ½, −½, −½)ᵀ`, `λ = 4`, `√λ = 2` -/
+example : ∃ Y, lmdsEmbed (0 : ℚ) Witness.δ Witness.lm Witness.V1 Witness.lam1 Witness.s1 = .ok Y ∧
     ∀ x y, sqDistRows Y x y = Witness.δ x y * Witness.δ x y :=
-  lmds_exact_recovery_partial Witness.δ Witness.X Witness.lm (by norm_num) (by norm_num) Witness.euclid
-    Witness.V1 Witness.lam1 Witness.s1 Witness.eig1 Witness.fac1 Witness.sqrt1
-    (by intro i; simp [Witness.lam1]) Witness.span
+  lmds_exact_recovery 0 le_rfl Witness.δ Witness.X Witness.lm (by norm_num) (by norm_num) Witness.euclid
+    Witness.V1 Witness.lam1 Witness.s1 Witness.eig1 Witness.fac1 Witness.sqrtc1
+    (by intro i; right; simp [Witness.lam1]) Witness.span
 
-/-- **The full exact-recovery statement is false of the code as it stands** (F-LMDS-RANKDEF).  Same five collinear
-    samples, `target_dimension = 2`: the data have affine dimension `1 ≤ d`, the landmarks affinely span them, and the
-    solver's answer is an exact, orthonormal, complete eigen-system of the landmark matrix — with second eigenvalue
-    `0`.  `triangulate` divides the eigenvectors by the eigenvalues, so the model reaches `divZero`; on the real code the
-    same input yields NaN rows (corpus/C11/f-lmds-rankdef.case). -/
-theorem lmds_exact_recovery_refuted :
-    ¬ ∀ (N nl d m : Nat) (δ : Mat N N ℚ) (X : Mat N m ℚ) (lm : Fin nl → Fin N) (V : Mat nl d ℚ) (lam s : Vec d ℚ),
-        0 < nl → d ≤ nl → IsEuclidean δ X → IsEig (lmdsB δ lm) V lam → IsOrthonormal V →
-        IsFactored (lmdsB δ lm) V lam → IsSqrt s lam →
-        (∀ x, ∃ w : Fin nl → ℚ, ∀ k, X x k - centroid X lm k = ∑ a, w a * Zc X lm a k) →
-        ∃ Y, lmdsEmbed δ lm V lam s = .ok Y ∧ ∀ x y, sqDistRows Y x y = δ x y * δ x y := by
-  intro h
-  obtain ⟨Y, hY, _⟩ := h 5 4 2 1 Witness.δ Witness.X Witness.lm Witness.V2 Witness.lam2 Witness.s2
-    (by norm_num) (by norm_num) Witness.euclid Witness.eig2 Witness.orth2 Witness.fac2 Witness.sqrt2 Witness.span
-  have := ((lmdsEmbed_ok_iff _ _ _ _ _ Y).mp hY).2.1 1
-  exact this (by simp [Witness.lam2])
-
-/-- the model's verdict on the witness, spelled out -/
-theorem lmds_witness_divZero :
-    lmdsEmbed Witness.δ Witness.lm Witness.V2 Witness.lam2 Witness.s2 = .error .divZero := by
-  unfold lmdsEmbed triangulate
-  have h1 : rightColsInBounds 4 2 = true := by decide
-  have h2 : anyZero Witness.lam2 = true := by
-    unfold anyZero
-    rw [List.any_eq_true]
-    exact ⟨1, List.mem_finRange _, by simp [Witness.lam2]⟩
-  simp [h1, h2]
+/-- non-vacuity, affine dimension `< d` (the former refutation witness, F-LMDS-RANKDEF): the same samples with
+    `d = 2`; the second selected eigenvalue is `0` and the pseudo-inverse zeroes its column -/
+example : ∃ Y, lmdsEmbed (0 : ℚ) Witness.δ Witness.lm Witness.V2 Witness.lam2 Witness.s2 = .ok Y ∧
+    ∀ x y, sqDistRows Y x y = Witness.δ x y * Witness.δ x y :=
+  lmds_exact_recovery 0 le_rfl Witness.δ Witness.X Witness.lm (by norm_num) (by norm_num) Witness.euclid
+    Witness.V2 Witness.lam2 Witness.s2 Witness.eig2 Witness.fac2 Witness.sqrtc2
+    (by intro i; fin_cases i <;> simp [Witness.lam2]) Witness.span
 
 /-- **`landmark_ratio = 1`, Landmark MDS = MDS.**  When every sample is a landmark (`lm` a permutation) and the
     distance is symmetric, the matrix Landmark MDS decomposes is the MDS matrix `mdsPre δ` relabelled by `lm`; reading
     the solver's answer `V'` through the relabelling gives an answer `V` for plain MDS that satisfies the same contract
     (eigen-relation, orthonormality, same eigenvalues), and Landmark MDS returns exactly what MDS returns for it —
     hence the same Gram matrix, and the same embedding up to the solver's own freedom (column signs). -/
-theorem ratio_one_eq_nonlandmark (δ : Mat N N K) (lm : Fin N → Fin N) (hbij : Function.Bijective lm)
+theorem ratio_one_eq_nonlandmark (eps : K) (δ : Mat N N K) (lm : Fin N → Fin N) (hbij : Function.Bijective lm)
     (hsym : ∀ x y, δ x y = δ y x) (V' : Mat N d K) (lam s : Vec d K) (Y : Mat N d K)
-    (h : lmdsEmbed δ lm V' lam s = .ok Y) :
+    (h : lmdsEmbed eps δ lm V' lam s = .ok Y) :
     ∃ V : Mat N d K, (∀ a, V (lm a) = V' a) ∧
       (∀ a b, lmdsB δ lm a b = mdsPre δ (lm a) (lm b)) ∧
       (IsEig (lmdsB δ lm) V' lam → IsEig (mdsPre δ) V lam) ∧
@@ -220,11 +222,11 @@ theorem ratio_one_eq_nonlandmark (δ : Mat N N K) (lm : Fin N → Fin N) (hbij :
     intro a
     have : e.symm (lm a) = a := e.symm_apply_apply a
     simp only [this]
-  obtain ⟨hd, _, rfl⟩ := (lmdsEmbed_ok_iff δ lm V' lam s Y).mp h
-  have hY : triangulateRows δ lm (lmdsMu δ lm) (post V' s) (divCols (post V' s) lam) = post (fun x => V' (e.symm x)) s := by
+  obtain ⟨hd, rfl⟩ := (lmdsEmbed_ok_iff eps δ lm V' lam s Y).mp h
+  have hY : triangulate eps δ lm (lmdsMu δ lm) (post V' s) lam = post (fun x => V' (e.symm x)) s := by
     funext x
     obtain ⟨a, rfl⟩ := hbij.2 x
-    unfold triangulateRows
+    unfold triangulate triangulateRows
     rw [landmarkPos_of_injective lm hbij.1 a]
     funext i
     simp only [post, hV]
@@ -241,67 +243,72 @@ theorem rightCols_inbounds_iff (n d : Nat) : rightColsInBounds n d = true ↔ d 
   simp [rightColsInBounds]
 
 /-- Landmark MDS reaches the out-of-bounds state exactly when `target_dimension` exceeds the number of landmarks -/
-theorem lmds_oob_iff (δ : Mat N N K) (lm : Fin nl → Fin N) (V : Mat nl d K) (lam s : Vec d K) :
-    lmdsEmbed δ lm V lam s = .error .oob ↔ nl < d := by
-  unfold lmdsEmbed triangulate rightColsInBounds
+theorem lmds_oob_iff (eps : K) (δ : Mat N N K) (lm : Fin nl → Fin N) (V : Mat nl d K) (lam s : Vec d K) :
+    lmdsEmbed eps δ lm V lam s = .error .oob ↔ nl < d := by
+  unfold lmdsEmbed rightColsInBounds
   by_cases hd : d ≤ nl
   · simp only [hd, decide_true, Bool.not_true, Bool.false_eq_true, if_false]
     constructor
-    · intro h; split at h <;> cases h
+    · intro h; cases h
     · intro h; omega
   · simp only [hd, decide_false, Bool.not_false, if_true, true_iff]
     omega
+
+/-- **Validated configurations stay in bounds** (since fix F-LANDMARK-DIM, c5e886d): `validate()` of both landmark
+    methods requires `1 ≤ d < count + 1` with `count` the very number of landmarks `select_landmarks_random` keeps, so
+    `rightCols(d)` / `tail(d)` of the `count × count` problem are inside the matrix and Landmark MDS never reaches `oob`.
+    (Before the fix `N = 8, ratio = 1/2, d = 5` was validated and read past a `4 × 4` matrix:
+    corpus/C11/f-landmark-dim.case.) -/
+theorem validated_inbounds (count d : Nat) (h : dimValidLandmark count d) : rightColsInBounds count d = true := by
+  unfold dimValidLandmark at h
+  simp [rightColsInBounds]; omega
+
+theorem lmds_validated_not_oob (eps : K) (δ : Mat N N K) (lm : Fin nl → Fin N) (V : Mat nl d K) (lam s : Vec d K)
+    (h : dimValidLandmark nl d) : lmdsEmbed eps δ lm V lam s ≠ .error .oob := by
+  rw [Ne, lmds_oob_iff]
+  unfold dimValidLandmark at h
+  omega
 
 end lmds
 
 /-! ## Landmark Isomap with every sample a landmark -/
 section lisomap
-variable {K : Type} [Field K] [LinearOrder K] [IsStrictOrderedRing K] [DecidableEq K] {N nl d : Nat}
+variable {K : Type} [Field K] [LinearOrder K] [IsStrictOrderedRing K] {N nl d : Nat}
 
-theorem lisomapPost_ok_iff (B : Mat nl N K) (V : Mat nl d K) (q : Vec d K) (E : Mat N d K) :
-    lisomapPost B V q = .ok E ↔ d ≤ nl ∧ (∀ i, q i ≠ 0) ∧ E = lisomapRows B V q := by
-  unfold lisomapPost rightColsInBounds anyZero
+theorem lisomapPost_ok_iff (eps : K) (B : Mat nl N K) (V : Mat nl d K) (lam q : Vec d K) (E : Mat N d K) :
+    lisomapPost eps B V lam q = .ok E ↔ d ≤ nl ∧ E = lisomapRows (eigTol nl eps lam) B V lam q := by
+  unfold lisomapPost rightColsInBounds
   by_cases hd : d ≤ nl
-  · by_cases hz : ∃ i, q i = 0
-    · have : (List.finRange d).any (fun i => decide (q i = 0)) = true := by
-        simpa [List.any_eq_true] using hz
-      simp only [hd, decide_true, Bool.not_true, Bool.false_eq_true, if_false, this, if_true]
-      constructor
-      · intro h; cases h
-      · rintro ⟨_, hne, _⟩; obtain ⟨i, hi⟩ := hz; exact absurd hi (hne i)
-    · have hz' : ∀ i, q i ≠ 0 := fun i hi => hz ⟨i, hi⟩
-      have : (List.finRange d).any (fun i => decide (q i = 0)) = false := by
-        simpa [List.any_eq_false] using hz'
-      simp only [hd, decide_true, Bool.not_true, Bool.false_eq_true, if_false, this]
-      constructor
-      · intro h; injection h with h; exact ⟨trivial, hz', h.symm⟩
-      · rintro ⟨_, _, rfl⟩; rfl
-  · simp only [hd, decide_false, Bool.not_false, if_true]
+  · simp only [hd, decide_true, Bool.not_true, Bool.false_eq_true, if_false, true_and]
     constructor
-    · intro h; cases h
-    · rintro ⟨h, _⟩; exact h.elim
+    · intro h; injection h with h; exact h.symm
+    · rintro rfl; rfl
+  · simp only [hd, decide_false, Bool.not_false, if_true, false_and, iff_false]
+    intro h; cases h
 
 /-- **`landmark_ratio = 1`, Landmark Isomap = Isomap** (`_partial`).  `G` is the (symmetric) geodesic matrix, `lm` the
     permutation the shuffle produced, so Landmark Isomap starts from the rows `G (lm k) ·`.  If the directions its solver
     selected (`V'`, read through the relabelling as `V`) are eigenvectors of the Isomap matrix
-    `isomapPreOfGeodesics G` (Model/Mds.lean) with POSITIVE eigenvalues `μ` (whose squares are the eigenvalues `q⁴` of
-    `B Bᵀ` that were divided out), then Landmark Isomap returns exactly the Isomap embedding `post V s` for that
-    eigen-system, `s = √μ`.
+    `isomapPreOfGeodesics G` (Model/Mds.lean) with POSITIVE eigenvalues `μ`, whose squares are the eigenvalues `lam'` of
+    `B Bᵀ` (all above the tolerance of the zero-guard), then Landmark Isomap returns exactly the Isomap embedding
+    `post V s` for that eigen-system, `s = √μ`.
 
-    Full statement (FALSE of the code, F-LISOMAP-NEGEIG): the same without `hpos` — the solver of `B Bᵀ` ranks by `μ²`,
-    so a negative `μ` of large magnitude is selected and embedded as `−√|μ| v`, a direction Isomap discards
-    (replayed on the real code by corpus/C11/f-lisomap-negeig.case). -/
-theorem lisomap_ratio_one_partial (G : Mat N N K) (hsym : ∀ x y, G x y = G y x) (lm : Fin N → Fin N)
-    (hbij : Function.Bijective lm) (V' : Mat N d K) (q μ : Vec d K) (E : Mat N d K)
-    (h : lisomapPost (lisomapPre (fun k j => G (lm k) j)) V' q = .ok E)
+    Full statement (FALSE of the code, F-LISOMAP-NEGEIG, `lisomap_ratio_one_refuted`): the same without `hpos` — the
+    solver of `B Bᵀ` ranks by `μ²`, so a negative `μ` of large magnitude is selected and embedded as `−√|μ| v`, a
+    direction Isomap discards (replayed on the real code by corpus/C11/f-lisomap-negeig.case). -/
+theorem lisomap_ratio_one_partial (eps : K) (G : Mat N N K) (hsym : ∀ x y, G x y = G y x) (lm : Fin N → Fin N)
+    (hbij : Function.Bijective lm) (V' : Mat N d K) (lam' q μ : Vec d K) (E : Mat N d K)
+    (h : lisomapPost eps (lisomapPre (fun k j => G (lm k) j)) V' lam' q = .ok E)
     (V : Mat N d K) (hV : ∀ a, V (lm a) = V' a)
     (hB : IsEig (isomapPreOfGeodesics G) V μ) (hpos : ∀ i, 0 < μ i)
-    (hq : IsFourthRoot q (fun i => μ i * μ i)) :
+    (hlam : ∀ i, lam' i = μ i * μ i) (htol : ∀ i, eigTol N eps lam' < lam' i)
+    (hq : IsFourthRoot q lam') :
     ∃ s, IsSqrt s μ ∧ E = post V s ∧ mdsEmbed V s = .ok E := by
-  obtain ⟨hd, hq0, rfl⟩ := (lisomapPost_ok_iff _ V' q E).mp h
+  obtain ⟨hd, rfl⟩ := (lisomapPost_ok_iff eps _ V' lam' q E).mp h
   have hq2 : ∀ i, q i * q i = μ i := by
     intro i
     have h1 := hq i
+    rw [hlam i] at h1
     have h2 : (q i * q i - μ i) * (q i * q i + μ i) = 0 := by ring_nf; ring_nf at h1; linarith
     have h3 : q i * q i + μ i ≠ 0 := by
       have : 0 ≤ q i * q i := mul_self_nonneg _
@@ -309,14 +316,16 @@ theorem lisomap_ratio_one_partial (G : Mat N N K) (hsym : ∀ x y, G x y = G y x
       intro h0; linarith
     have := (mul_eq_zero.mp h2).resolve_right h3
     linarith
-  refine ⟨fun i => μ i / q i, ?_, ?_, ?_⟩
-  · intro i
-    have : q i ≠ 0 := hq0 i
-    rw [div_mul_div_comm, hq2 i]
-    have hμ : μ i ≠ 0 := ne_of_gt (hpos i)
-    field_simp
-  · funext x i
+  have hq0 : ∀ i, q i ≠ 0 := by
+    intro i h0
+    have := hq2 i
+    rw [h0, mul_zero] at this
+    exact absurd this.symm (ne_of_gt (hpos i))
+  have hrows : lisomapRows (eigTol N eps lam') (lisomapPre fun k j => G (lm k) j) V' lam' q
+      = post V (fun i => μ i / q i) := by
+    funext x i
     unfold lisomapRows post
+    simp only [htol i, if_true]
     rw [sumFin_eq_sum]
     have : ∑ a, lisomapPre (fun k j => G (lm k) j) a x * V' a i = μ i * V x i := by
       simp only [lisomapPre_relabel G hsym lm hbij, ← hV]
@@ -325,29 +334,27 @@ theorem lisomap_ratio_one_partial (G : Mat N N K) (hsym : ∀ x y, G x y = G y x
       exact isEig_apply hB x i
     rw [this]
     ring
-  · have : lisomapRows (lisomapPre fun k j => G (lm k) j) V' q = post V (fun i => μ i / q i) := by
-      funext x i
-      unfold lisomapRows post
-      rw [sumFin_eq_sum]
-      have : ∑ a, lisomapPre (fun k j => G (lm k) j) a x * V' a i = μ i * V x i := by
-        simp only [lisomapPre_relabel G hsym lm hbij, ← hV]
-        rw [sum_comp_bij lm hbij (fun y => isomapPreOfGeodesics G y x * V y i)]
-        simp only [isomapPre_symm G hsym _ x]
-        exact isEig_apply hB x i
-      rw [this]
-      ring
-    rw [this]
+  refine ⟨fun i => μ i / q i, ?_, hrows, ?_⟩
+  · intro i
+    have := hq0 i
+    rw [div_mul_div_comm, hq2 i]
+    have hμ : μ i ≠ 0 := ne_of_gt (hpos i)
+    field_simp
+  · rw [hrows]
     simp [mdsEmbed, rightColsInBounds, hd]
 
 /-- non-vacuity: four collinear samples `1, 1, −1, −1` (geodesic = distance), `lm = id`, `d = 1`, `V = (1,1,−1,−1)ᵀ`,
-    `μ = 4`, `q = 2` (Proofs/LandmarksWitness.lean) -/
+    `μ = 4`, `λ' = 16`, `q = 2` (Proofs/LandmarksWitness.lean) -/
 example : ∃ s : Vec 1 ℚ, IsSqrt s Witness.mu4 ∧
-    lisomapRows (lisomapPre fun k j => Witness.G4 (id k) j) Witness.V4 Witness.q4 = post Witness.V4 s ∧
-    mdsEmbed Witness.V4 s = .ok (lisomapRows (lisomapPre fun k j => Witness.G4 (id k) j) Witness.V4 Witness.q4) :=
-  lisomap_ratio_one_partial Witness.G4 Witness.G4_symm id Function.bijective_id Witness.V4 Witness.q4 Witness.mu4 _
-    ((lisomapPost_ok_iff _ _ _ _).mpr ⟨by norm_num, by intro i; simp [Witness.q4], rfl⟩)
+    lisomapRows (eigTol 4 0 Witness.lam4) (lisomapPre fun k j => Witness.G4 (id k) j) Witness.V4 Witness.lam4 Witness.q4
+      = post Witness.V4 s ∧
+    mdsEmbed Witness.V4 s = .ok (lisomapRows (eigTol 4 0 Witness.lam4) (lisomapPre fun k j => Witness.G4 (id k) j)
+      Witness.V4 Witness.lam4 Witness.q4) :=
+  lisomap_ratio_one_partial 0 Witness.G4 Witness.G4_symm id Function.bijective_id Witness.V4 Witness.lam4 Witness.q4
+    Witness.mu4 _ ((lisomapPost_ok_iff _ _ _ _ _ _).mpr ⟨by norm_num, rfl⟩)
     Witness.V4 (fun _ => rfl) Witness.eig4 (by intro i; simp [Witness.mu4])
-    (by intro i; simp [Witness.q4, Witness.mu4]; norm_num)
+    (by intro i; simp [Witness.mu4, Witness.lam4]; norm_num) (by intro i; simp [Witness.lam4])
+    (by intro i; simp [Witness.q4, Witness.lam4]; norm_num)
 
 /-- **The full `ratio = 1` statement for Landmark Isomap is false of the code** (F-LISOMAP-NEGEIG).  Four samples
     with the metric `d(0,1)=d(2,3)=16, d(0,2)=d(1,3)=25, d(0,3)=d(1,2)=9` (its own geodesic matrix for `k = 3`),
@@ -356,12 +363,12 @@ example : ∃ s : Vec 1 ℚ, IsSqrt s Witness.mu4 ∧
     centred geodesic matrix; Landmark Isomap embeds along it (`−12·v`), whereas NO Isomap-type embedding
     (`B V = V diag μ`, `s² = μ`) has a Gram matrix with a component along it. -/
 theorem lisomap_ratio_one_refuted :
-    ¬ ∀ (N d : Nat) (G : Mat N N ℚ) (lm : Fin N → Fin N) (V' : Mat N d ℚ) (lam' q : Vec d ℚ) (E : Mat N d ℚ),
-        (∀ x y, G x y = G y x) → Function.Bijective lm →
+    ¬ ∀ (N d : Nat) (eps : ℚ) (G : Mat N N ℚ) (lm : Fin N → Fin N) (V' : Mat N d ℚ) (lam' q : Vec d ℚ) (E : Mat N d ℚ),
+        0 ≤ eps → (∀ x y, G x y = G y x) → Function.Bijective lm →
         IsEig (lisomapSym (lisomapPre fun k j => G (lm k) j)) V' lam' → IsOrthonormal V' →
         (∑ x, lisomapSym (lisomapPre fun k j => G (lm k) j) x x = ∑ i, lam' i) →
         IsFourthRoot q lam' →
-        lisomapPost (lisomapPre fun k j => G (lm k) j) V' q = .ok E →
+        lisomapPost eps (lisomapPre fun k j => G (lm k) j) V' lam' q = .ok E →
         ∃ (V : Mat N d ℚ) (μ s : Vec d ℚ),
           IsEig (isomapPreOfGeodesics G) V μ ∧ IsSqrt s μ ∧ gramRows (post V s) = gramRows E := by
   intro h
@@ -369,22 +376,24 @@ theorem lisomap_ratio_one_refuted :
     funext k j; exact Witness.lisomapPre9 k j
   have hB : isomapPreOfGeodesics Witness.G9 = Witness.B9 := by
     funext x y; exact Witness.isomapPre9 x y
-  obtain ⟨V, μ, s, heig, hs, hgram⟩ := h 4 3 Witness.G9 id Witness.V9 Witness.lam9 Witness.q9
-    (lisomapRows Witness.B9 Witness.V9 Witness.q9) Witness.G9_symm Function.bijective_id
+  obtain ⟨V, μ, s, heig, hs, hgram⟩ := h 4 3 0 Witness.G9 id Witness.V9 Witness.lam9 Witness.q9
+    (lisomapRows 0 Witness.B9 Witness.V9 Witness.lam9 Witness.q9) le_rfl Witness.G9_symm Function.bijective_id
     (by rw [hpre]; exact isEig_sym_of_isEig _ Witness.B9_symm _ _ Witness.eigB9) Witness.orth9
     (by rw [hpre]; exact Witness.trace9) Witness.root9
     (by
       rw [hpre]
-      exact (lisomapPost_ok_iff _ _ _ _).mpr ⟨by norm_num, by intro i; fin_cases i <;> simp [Witness.q9], rfl⟩)
+      exact (lisomapPost_ok_iff _ _ _ _ _ _).mpr ⟨by norm_num, by simp⟩)
   rw [hB] at heig
   -- Isomap-type embeddings have no component along hB ...
   have h0 := isomap_gram_vanishes_on_negative_direction Witness.B9 Witness.B9_symm Witness.hB 144 (by norm_num)
     Witness.hB_eig V μ s heig hs
   -- ... Landmark Isomap's third column is −12·hB
-  have hcol : ∑ x, Witness.hB x * lisomapRows Witness.B9 Witness.V9 Witness.q9 x 2 ≠ 0 := by
-    have : ∀ x, lisomapRows Witness.B9 Witness.V9 Witness.q9 x 2 = -12 * Witness.hB x := by
+  have hcol : ∑ x, Witness.hB x * lisomapRows 0 Witness.B9 Witness.V9 Witness.lam9 Witness.q9 x 2 ≠ 0 := by
+    have : ∀ x, lisomapRows 0 Witness.B9 Witness.V9 Witness.lam9 Witness.q9 x 2 = -12 * Witness.hB x := by
       intro x
       unfold lisomapRows
+      have hl : (0 : ℚ) < Witness.lam9 2 := by simp [Witness.lam9, Witness.mu9]
+      simp only [hl, if_true]
       rw [sumFin_eq_sum]
       have : ∑ a, Witness.B9 a x * Witness.V9 a 2 = -144 * Witness.hB x := by
         rw [← Witness.hB_eig x]
@@ -397,27 +406,10 @@ theorem lisomap_ratio_one_refuted :
     simp only [this, Fin.sum_univ_four]
     simp [Witness.hB]
     norm_num
-  have hpos := gram_pos_of_column (lisomapRows Witness.B9 Witness.V9 Witness.q9) Witness.hB 2 hcol
+  have hpos := gram_pos_of_column (lisomapRows 0 Witness.B9 Witness.V9 Witness.lam9 Witness.q9) Witness.hB 2 hcol
   rw [hgram] at h0
   linarith
 
 end lisomap
-
-/-- **The validation of both landmark methods does not ensure `d ≤ n_landmarks`** (F-LANDMARK-DIM): `N = 8`,
-    `landmark_ratio = 1/2`, `target_dimension = 5` passes `InClosedRange(3/N, 1)` and `InRange(1, N)`, selects
-    `4` landmarks, and `rightCols(5)` of the `4 × 4` eigenvector matrix is out of bounds. -/
-theorem validation_does_not_bound_dimension :
-    ∃ (N d : Nat) (ratio : Rat), ratioValid N ratio ∧ dimValid N d ∧
-      rightColsInBounds (landmarkCount N ratio) d = false := by
-  refine ⟨8, 5, 1 / 2, ?_, ?_, ?_⟩
-  · unfold ratioValid; norm_num
-  · unfold dimValid; omega
-  · have : landmarkCount 8 (1 / 2) = 4 := by
-      unfold landmarkCount
-      have : (((8 : Nat) : Rat) * (1 / 2)) = ((4 : Int) : Rat) := by norm_num
-      rw [this, Rat.floor_intCast]
-      rfl
-    rw [this]
-    rfl
 
 end TapkeeVerif.Landmarks
